@@ -5,6 +5,8 @@ import (
 	"os"
 	"path/filepath"
 	"sort"
+	"strings"
+	"unicode"
 
 	"github.com/JunNishimura/Goit/internal/sha"
 	"github.com/fatih/color"
@@ -103,7 +105,24 @@ func (r *Refs) IsBranchExist(branchName string) bool {
 	return p != NewBranchFlag
 }
 
+// branch name is used as a file name under refs/heads, so it must be a plain name
+func validateBranchName(branchName string) error {
+	if branchName == "" || branchName == "." || branchName == ".." || strings.HasPrefix(branchName, "-") {
+		return fmt.Errorf("'%s' is not a valid branch name", branchName)
+	}
+	for _, c := range branchName {
+		if c == '/' || c == '\\' || unicode.IsSpace(c) || unicode.IsControl(c) {
+			return fmt.Errorf("'%s' is not a valid branch name", branchName)
+		}
+	}
+	return nil
+}
+
 func (r *Refs) AddBranch(rootGoitPath, newBranchName string, newBranchHash sha.SHA1) error {
+	if err := validateBranchName(newBranchName); err != nil {
+		return err
+	}
+
 	// check if branch already exists
 	n := r.getBranchPos(newBranchName)
 	if n != NewBranchFlag {
@@ -125,6 +144,10 @@ func (r *Refs) AddBranch(rootGoitPath, newBranchName string, newBranchHash sha.S
 }
 
 func (r *Refs) RenameBranch(rootGoitPath, curBranchName, newBranchName string) error {
+	if err := validateBranchName(newBranchName); err != nil {
+		return err
+	}
+
 	// check if new branch name is not used for other branches
 	n := r.getBranchPos(newBranchName)
 	if n != NewBranchFlag {
